@@ -22,3 +22,27 @@ PROPS['C13'] = dict(
     level_note='Trusted: Coq kernel, translator tools/gen, the hand-written mirror of getValidatorSet tied by the correspondence run, 20-byte addresses, total stake < 2^63; BLS key decoding and the store scan are outside the model.',
     trusted_base=['model/Committee.v is a hand-written mirror of getValidatorSet/PassesFilter/NewValidatorSet, tied by the correspondence run'],
 )
+
+PROPS['C19'] = dict(
+    props='props/C19.v',
+    models=['Keys', 'KeysCheck'],
+    harness='c19',
+    args=dict(quick=['-join', '300', '-keys', '300', '-decode', '1500'], thorough=['-join', '3000', '-keys', '3000', '-decode', '40000']),
+    fingerprint_groups=['Keys'],
+    rule='JoinLenPrefix on 1-4 segments with lengths from {0,1,8,20,254,255,256,>256,random<40} and contents {random, 0xFF runs, embedded small '
+         'length bytes, descending length-like bytes}; every key constructor of fsm/key.go on boundary u64 values and 20-byte addresses / order ids '
+         'of 0..255 bytes; pairwise collision/prefix predicate over all pairs in a shard; decoders (Transaction, Block, QuorumCertificate, '
+         'BlockMessage, bft.Message, TxMessage, AddressFromKey/IdFromKey) on a committed corpus first, then on structured mutations of valid '
+         'encodings (truncate, bit flip, length-like byte, appended garbage, 10-byte varints, duplicated slices, deep nesting, nested length-field '
+         'rewrites to values that wrap int/int32 or exceed the buffer) and random bytes, under recover and a 5 s watchdog; distinct by literal, '
+         'non-trivial when a join case has at least two segments',
+    modelled='hand-modelled: lib.JoinLenPrefix, lib.DecodeLengthPrefixed, every key constructor of fsm/key.go, prefixEnd, the version suffix. '
+             'Generated from source: all family prefix bytes, batch segments, partition prefixes, maxKeyBytes. Not modelled (exercised only): the Go '
+             'protobuf decoders and the stateless checks that follow them (panic/hang freedom cannot be a theorem about a Gallina model); '
+             'sign-bytes injectivity is stated over Proto.v (see C06) once that model is in place.',
+    assumptions=['key components are shorter than 256 bytes (outside it: C19_join_truncation_refuted); u64 components below 2^64',
+                 'panic/hang freedom of Go decoders is differential fuzzing used as validation, not a theorem (partial, DESIGN.md §6)'],
+    trusted_base=['model/Keys.v is a hand-written mirror of JoinLenPrefix/DecodeLengthPrefixed and fsm/key.go tied by the correspondence run'],
+    level_text='Unbounded theorems that length-prefixed composite keys are injective, decodable and prefix-exact for all component tuples below 256 bytes, that the whole fsm/key.go schema (prefix bytes regenerated from source) is collision-free and prefix-free, that prefix-range bounds select exactly the prefixed keys, that big-endian and inverted-version encodings preserve order; the byte-level model is compared with the real constructors on every run, and the real decoders are driven with boundary and mutated inputs under recover/watchdog.',
+    level_note='Trusted: Coq kernel, translator, hand-written key model tied by correspondence. Partial: absence of panics/hangs in Go decoders is exercised (corpus + structured mutation), not proved; sign-bytes injectivity pending Proto.v.',
+)
